@@ -281,28 +281,48 @@ proof fn lemma_lcp(a: Seq<u8>, b: Seq<u8>, n: int)
 }
 
 impl BlockBuilder {
+    // the restart table under construction: starts with 0, strictly increasing offsets into the buffer, and the last
+    // one lies strictly below the end of the buffer as soon as an entry has been appended since it was recorded
+    spec fn restarts_ok(&self) -> bool {
+        &&& self.restarts@.len() >= 1 && self.restarts@[0] == 0 && self.buffer@.len() <= 0xffff_ffff
+        &&& forall|i: int, j: int| 0 <= i < j < self.restarts@.len() ==> self.restarts@[i] < self.restarts@[j]
+        &&& self.restarts@.last() <= self.buffer@.len()
+        &&& self.key_value_pairs_since_restart > 0 ==> self.restarts@.last() < self.buffer@.len()
+    }
+
+// a restart may only be announced when at least one entry lies between the last restart point and the end of the
+// buffer: two restart points at the same offset make the block unreadable (BlockCursor::next would not advance)
 //@ extract sst/src/block.rs | impl BlockBuilder :: fn should_restart
 //@ ret r
+//@ pre <<
+        self.restarts_ok(),
+//@ >>
 //@ post <<
-        r == (self.options.bytes_restart_interval <= self.bytes_since_restart
-            || self.options.key_value_pairs_restart_interval <= self.key_value_pairs_since_restart),
+        r ==> self.restarts@.last() < self.buffer@.len(),
 //@ >>
 //@ end
 
-// shared prefix is the longest common prefix with the previous key unless a restart is due;
-// frame: last_key, last_timestamp, buffer untouched; a restart pushes exactly one restart point.
+// prefix compression: the fragment is the key without its first `shared` bytes and those bytes are shared with the
+// previous key (so the reader's `last_key[..shared] ++ fragment` is the key); a restart stores the whole key and
+// records exactly the current end of the buffer as the new restart point, keeping the table strictly increasing.
+// frame: last_key, last_timestamp, buffer untouched.
 //@ extract sst/src/block.rs | impl BlockBuilder :: fn compute_key_frag
 //@ ret r
 //@ rewrite X4 `cmp::min(` => `min_usize(`
+//@ pre <<
+        old(self).restarts_ok(),
+//@ >>
 //@ post <<
         final(self).last_key@ == old(self).last_key@,
         final(self).last_timestamp == old(self).last_timestamp,
         final(self).buffer@ == old(self).buffer@,
         final(self).options == old(self).options,
         r.0 <= key@.len(), r.1@ == key@.skip(r.0 as int),
-        !old(self).restart_due() ==> (r.0 == lcp(key@, old(self).last_key@) && final(self).restarts@ == old(self).restarts@),
-        old(self).restart_due() ==> (r.0 == 0 && final(self).restarts@ == old(self).restarts@.push(old(self).buffer@.len() as u32)
-            && final(self).bytes_since_restart == 0 && final(self).key_value_pairs_since_restart == 0),
+        r.0 <= lcp(key@, old(self).last_key@),
+        final(self).restarts@ == old(self).restarts@
+            || (r.0 == 0 && final(self).restarts@ == old(self).restarts@.push(old(self).buffer@.len() as u32) && final(self).key_value_pairs_since_restart == 0),
+        forall|i: int, j: int| 0 <= i < j < final(self).restarts@.len() ==> final(self).restarts@[i] < final(self).restarts@[j],
+        final(self).restarts@[0] == 0 && final(self).restarts@.last() <= final(self).buffer@.len(),
 //@ >>
 //@ loop 0 <<
                 invariant
@@ -323,10 +343,6 @@ impl BlockBuilder {
 //@ >>
 //@ end
 
-    spec fn restart_due(&self) -> bool {
-        self.options.bytes_restart_interval <= self.bytes_since_restart
-            || self.options.key_value_pairs_restart_interval <= self.key_value_pairs_since_restart
-    }
 }
 
 // ---------- SstBuilder: sort-order guard and the metadata it accumulates ----------
